@@ -66,11 +66,13 @@ impl Deserializer {
                 r is Ok ==> old(self).rem().len() > 0 && old(self).rem()[0] is Special { unimplemented!() }
 }
 // the library's error type: only Ok/Err-ness matters; conversions as in error.rs
-pub enum Key { Str(String), Uint(u64) }
+pub enum Key { Str(String), Uint(u64), OptUint(Option<u64>) }
 pub enum DeserializeFailure {
     OutOfRange { min: usize, max: usize, found: usize }, EndingBreakMissing, CBOR(CborError), CustomError(String),
     TagMismatch { found: u64, expected: u64 }, FixedValueMismatch { found: Key, expected: Key }, ExpectedNull, NoVariantMatched, Other,
     DuplicateKey(Key), UnknownKey(Key), BreakInDefiniteLen, MandatoryFieldMissing(Key), UnexpectedKeyType(CBORType),
+    BadAddressType(u8), DefiniteLenMismatch(u64, Option<u64>), ExpectedBool, FixedValuesMismatch { found: Key, expected: Vec<Key> }, Metadata(JsError),
+    VariableLenNatDecodeFailed, IoError(String),
 }
 #[verifier::external_body] pub struct DeserializeError { _p: core::marker::PhantomData<u8> }
 impl DeserializeError {
